@@ -1,3 +1,4 @@
+(* In comments regular expressions are written with {0,} for the star. *)
 (* Sem/Calls.v — model of FORD's procedure-call recording (property C08).
    Mirrors, as they are:
      ford/utils.py      strip_paren
@@ -76,7 +77,8 @@ Fixpoint psplit (sep : ascii) (level blevel : Z) (cur : str) (x : str) : list st
 Definition paren_split (sep : ascii) (x : str) : list str := psplit sep 0 0 [] x.
 
 (* ------------------------------------------------------------------ QUOTES_RE masking *)
-(* QUOTES_RE = "([^"]|"")*"|'([^']|'')*'  — one attempt at an opening quote [q]; [x] is the text
+(* QUOTES_RE = DQ([^DQ]|DQDQ)*DQ|SQ([^SQ]|SQSQ)*SQ (DQ, SQ: the double and the single quote
+   character) — one attempt at an opening quote [q]; [x] is the text
    after it.  Greedy body: non-quote characters and doubled quotes; the literal closes at the
    first single quote; when the text ends first the engine backtracks to the first character
    of the last doubled quote.  Returns the number of characters of [x] the match covers. *)
@@ -105,22 +107,29 @@ Fixpoint quotes_search (pre : str) (x : str) : option (str * str * str) :=
     else quotes_search (pre ++ [c]) x'
   end.
 
-(* the while loop: the k-th literal becomes "k"; the search resumes after the replacement *)
-Fixpoint mask_loop (fuel : nat) (k : nat) (done todo : str) : str :=
+(* the while loop, literally: the k-th literal found at or after [search_from] becomes the
+   number k between double quotes;
+   search_from then moves behind the first literal the changed line shows from there *)
+Fixpoint mask_loop (fuel : nat) (k : nat) (line : str) (search_from : nat) : str :=
   match fuel with
-  | 0 => done ++ todo
+  | 0 => line
   | S f =>
-    match quotes_search [] todo with
-    | Some (pre, _, post) => mask_loop f (S k) (done ++ pre ++ dquote :: str_of_nat k ++ [dquote]) post
-    | None => done ++ todo
+    match quotes_search [] (skipn search_from line) with
+    | Some (pre, _, post) =>
+      let line' := firstn search_from line ++ pre ++ dquote :: str_of_nat k ++ dquote :: post in
+      match quotes_search [] (skipn search_from line') with
+      | Some (pre2, lit2, _) => mask_loop f (S k) line' (search_from + length pre2 + length lit2)
+      | None => line'
+      end
+    | None => line
     end
   end.
-Definition mask_quotes (line : str) : str := mask_loop (S (length line)) 0 [] line.
+Definition mask_quotes (line : str) : str := mask_loop (S (length line)) 0 line 0.
 
 (* ------------------------------------------------------------------ CALL_RE *)
-(*  (?P<call_chain> (?:(?:\s*\w+\s*(?:\(\))?\s*%\s*)+)?  (?:\w+\s*\(.*?\)) )     IGNORECASE|VERBOSE *)
+(*  (?P<call_chain> (?:(?:\s{0,}\w+\s{0,}(?:\(\))?\s{0,}%\s{0,})+)?  (?:\w+\s{0,}\(.{0,}?\)) )     IGNORECASE|VERBOSE *)
 
-(* the required part  \w+\s*\(.*?\)  at the head of x: (matched text, rest) *)
+(* the required part  \w+\s{0,}\(.{0,}?\)  at the head of x: (matched text, rest) *)
 Definition match_req (x : str) : option (str * str) :=
   let (w, x1) := span is_word x in
   if is_nil w then None else
@@ -137,7 +146,7 @@ Definition match_req (x : str) : option (str * str) :=
   | [] => None
   end.
 
-(* one iteration of the prefix group  \s*\w+\s*(?:\(\))?\s*%\s* :
+(* one iteration of the prefix group  \s{0,}\w+\s{0,}(?:\(\))?\s{0,}%\s{0,} :
    (has "()", text up to and including the optional "()", whole text, rest) *)
 Definition parse_item (x : str) : option (bool * str * str * str) :=
   let (ws1, x1) := span is_space x in
@@ -191,32 +200,31 @@ Definition match_call (x : str) : option (str * str) :=
     end
   end.
 
-Definition drop_word (x : str) : str := snd (span is_word x).
-
 (* CALL_RE.finditer(x): the matched texts.  A match that starts on white space is the match at
    the following word with that white space in front (removed again by the normalisation below),
    and a failure at the start of a word is a failure at each of its characters, so the scan
    tries word starts only. ([call_finditer_naive] in Corr/C08.v tries every position and is
-   compared with this one and with Python on every run.) *)
-Fixpoint call_finditer (fuel : nat) (x : str) : list str :=
-  match fuel with
-  | 0 => []
-  | S f =>
-    match x with
-    | [] => []
-    | c :: x' =>
+   compared with this one and with Python on every run.)  [skip]: characters still covered by
+   the last match or by the word just given up. *)
+Fixpoint call_scan (skip : nat) (x : str) : list str :=
+  match x with
+  | [] => []
+  | c :: x' =>
+    match skip with
+    | S k => call_scan k x'
+    | 0 =>
       if is_word c then
         match match_call x with
-        | Some (m, rest) => m :: call_finditer f rest
-        | None => call_finditer f (drop_word x)
+        | Some (m, _) => m :: call_scan (length m - 1) x'
+        | None => call_scan (length (fst (span is_word x)) - 1) x'
         end
-      else call_finditer f x'
+      else call_scan 0 x'
     end
   end.
-Definition call_matches (x : str) : list str := call_finditer (S (length x)) x.
+Definition call_matches (x : str) : list str := call_scan 0 x.
 
 (* ------------------------------------------------------------------ SUBCALL_RE *)
-(*  ^(?:if\s*\(.*\)\s*)?call\s+(?P<call_chain>(?:.*%\s*)?(?:\w+\s*(?:\(\))?))     IGNORECASE|VERBOSE *)
+(*  ^(?:if\s{0,}\(.{0,}\)\s{0,})?call\s+(?P<call_chain>(?:.{0,}%\s{0,})?(?:\w+\s{0,}(?:\(\))?))     IGNORECASE|VERBOSE *)
 
 (* case-insensitive literal prefix (the literal is lower case) *)
 Fixpoint starts_ci (p x : str) : bool :=
@@ -226,7 +234,7 @@ Fixpoint starts_ci (p x : str) : bool :=
   | _ :: _, [] => false
   end.
 
-(* \w+\s*(?:\(\))?  at the head of z: the matched text *)
+(* \w+\s{0,}(?:\(\))?  at the head of z: the matched text *)
 Definition final_name (z : str) : option str :=
   let (w, z1) := span is_word z in
   if is_nil w then None else
@@ -236,7 +244,7 @@ Definition final_name (z : str) : option str :=
   | _ => Some (w ++ ws)
   end.
 
-(* (?:.*%\s*)? : the last '%' of the line after which  \s*\w+  matches; [pre] = text read so far *)
+(* (?:.{0,}%\s{0,})? : the last '%' of the line after which  \s{0,}\w+  matches; [pre] = text read so far *)
 Fixpoint last_pct (pre : str) (y : str) (best : option (str * str)) : option (str * str) :=
   match y with
   | [] => best
@@ -266,7 +274,7 @@ Definition call_kw (y : str) : option str :=
     if is_nil ws then None else chain_text y1
   else None.
 
-(* after "if\s*(" : the last ')' of the line after which  \s*call\s+<chain>  matches *)
+(* after "if\s{0,}(" : the last ')' of the line after which  \s{0,}call\s+<chain>  matches *)
 Fixpoint last_close_call (y : str) (best : option str) : option str :=
   match y with
   | [] => best
@@ -413,7 +421,7 @@ Definition add_calls (a : assocs) (calls : list chain) (line : str) : list chain
 (* ------------------------------------------------------------------ the cascade *)
 Definition is_digit_b (c : ascii) : bool := is_digit c.
 
-(* FORMAT_RE.match:  ^[0-9]+\s+format\s+\(.*\)  *)
+(* FORMAT_RE.match:  ^[0-9]+\s+format\s+\(.{0,}\)  *)
 Definition format_re (x : str) : bool :=
   let (d, x1) := span is_digit_b x in
   if is_nil d then false else
@@ -432,7 +440,7 @@ Definition format_re (x : str) : bool :=
     end
   else false.
 
-(* ARITH_GOTO_RE.search:  go\s*to\s*\([0-9,\s]+\)  anywhere in the line *)
+(* ARITH_GOTO_RE.search:  go\s{0,}to\s{0,}\([0-9,\s]+\)  anywhere in the line *)
 Definition goto_here (x : str) : bool :=
   if starts_ci (s "go") x then
     let x1 := snd (span is_space (skipn 2 x)) in
@@ -454,7 +462,7 @@ Fixpoint arith_goto_re (x : str) : bool :=
   | _ :: x' => goto_here x || arith_goto_re x'
   end.
 
-(* optional construct name  (\w+\s*:)?  then \s*  *)
+(* optional construct name  (\w+\s{0,}:)?  then \s{0,}  *)
 Definition skip_label (x : str) : str :=
   let (w, x1) := span is_word x in
   let unl := snd (span is_space x) in
@@ -465,7 +473,7 @@ Definition skip_label (x : str) : str :=
   end.
 
 (* ASSOCIATE_RE.match(line)["associations"]:
-   ^(\w+\s*:)?\s*associate\s*\((?P<associations>.+)\)\s*$ *)
+   ^(\w+\s{0,}:)?\s{0,}associate\s{0,}\((?P<associations>.+)\)\s{0,}$ *)
 Definition associate_re (x : str) : option str :=
   let try (y : str) : option str :=
     if starts_ci (s "associate") y then
@@ -487,7 +495,7 @@ Definition associate_re (x : str) : option str :=
   | None => try (snd (span is_space x))
   end.
 
-(* END_RE.match with group 1 = "associate":  ^end\s*associate(?:\s+(\w.*))?$ *)
+(* END_RE.match with group 1 = "associate":  ^end\s{0,}associate(?:\s+(\w.{0,}))?$ *)
 Definition end_associate_re (x : str) : bool :=
   if starts_ci (s "end") x then
     let x1 := snd (span is_space (skipn 3 x)) in
@@ -508,9 +516,8 @@ Definition call_gate (line : str) : bool :=
 (* one (unmasked) executable statement of a procedure or program body, none of the earlier
    branches of the cascade (declarations, contains, end of the unit, ...) applying.
    None = the implementation raises (malformed ASSOCIATE list, END ASSOCIATE without ASSOCIATE) *)
-Definition stmt_step (st : assocs * list chain) (stmt : str) : option (assocs * list chain) :=
+Definition line_step (st : assocs * list chain) (line : str) : option (assocs * list chain) :=
   let (a, calls) := st in
-  let line := mask_quotes stmt in
   if format_re line then Some st
   else if end_associate_re line then
     match rev a with [] => None | _ :: ra => Some (rev ra, calls) end
@@ -531,6 +538,9 @@ Definition stmt_step (st : assocs * list chain) (stmt : str) : option (assocs * 
     else Some st
   end.
 
+Definition stmt_step (st : assocs * list chain) (stmt : str) : option (assocs * list chain) :=
+  line_step st (mask_quotes stmt).
+
 Fixpoint run_stmts (st : assocs * list chain) (stmts : list str) : option (assocs * list chain) :=
   match stmts with
   | [] => Some st
@@ -544,8 +554,11 @@ Definition unit_raw_calls (stmts : list str) : option (list chain) :=
 (* ------------------------------------------------------------------ resolution (correlate) *)
 (* what a label of a call chain can denote *)
 Inductive entity :=
-  | EFunc (rettype : str)      (* has a retvar: function (result type string after strip_type) *)
-  | EProc                      (* subroutine, interface, bound procedure, ... : recorded, no context *)
+  | EFunc (id : str) (rettype : str) (has_types : bool)
+                               (* has a retvar: function (identity; result type string after strip_type;
+                                  whether the function object already carries all_types, i.e. has
+                                  been correlated — otherwise reading it raises AttributeError) *)
+  | EProc (id : str)           (* subroutine, interface, bound procedure, ... : recorded, no context *)
   | EVar (ty : str) (ptypes : bool)   (* variable (type string after strip_type; parent has all_types) *)
   | EType (name : str).        (* derived type *)
 
@@ -564,45 +577,52 @@ Record symtab := mk_symtab {
 
 Definition type_ctx (tb : symtab) (name : str) : option labels := assoc_get name (st_types tb).
 
+Inductive fres := FFound (e : entity) | FNone | FCrash.
+
 (* _find_chain_item *)
-Fixpoint find_chain (tb : symtab) (ctx : labels) (ch : chain) : option entity :=
+Fixpoint find_chain (tb : symtab) (ctx : labels) (ch : chain) : fres :=
   match ch with
-  | [] => None
-  | [x] => labels_get x ctx None
+  | [] => FNone
+  | [x] => match labels_get x ctx None with Some e => FFound e | None => FNone end
   | x :: rest =>
     match labels_get x ctx None with
-    | None => None
-    | Some (EFunc t) => match type_ctx tb t with Some c => find_chain tb c rest | None => None end
-    | Some (EType t) => match type_ctx tb t with Some c => find_chain tb c rest | None => None end
-    | Some (EVar t true) => match type_ctx tb t with Some c => find_chain tb c rest | None => None end
-    | Some (EVar _ false) => None
-    | Some EProc => None
+    | None => FNone
+    | Some (EFunc _ _ false) => FCrash
+    | Some (EFunc _ t true) => match type_ctx tb t with Some c => find_chain tb c rest | None => FNone end
+    | Some (EType t) => match type_ctx tb t with Some c => find_chain tb c rest | None => FNone end
+    | Some (EVar t true) => match type_ctx tb t with Some c => find_chain tb c rest | None => FNone end
+    | Some (EVar _ false) => FNone
+    | Some (EProc _) => FNone
     end
   end.
 
-(* what correlate leaves in unit.calls: the name of the resolved procedure, or the last label of a
-   chain that did not resolve; variables and types are dropped *)
-Definition resolve_one (tb : symtab) (ch : chain) : option str :=
+(* what correlate leaves in unit.calls for one chain: the resolved procedure (its identity), or the
+   last label of a chain that did not resolve; variables and types are dropped.
+   None = the implementation raises *)
+Definition resolve_one (tb : symtab) (ch : chain) : option (option str) :=
   match find_chain tb (st_scope tb) ch with
-  | None => Some (last_of ch)
-  | Some (EVar _ _) => None
-  | Some (EType _) => None
-  | Some _ => Some (last_of ch)
+  | FCrash => None
+  | FNone => Some (Some (last_of ch))
+  | FFound (EVar _ _) => Some None
+  | FFound (EType _) => Some None
+  | FFound (EFunc id _ _) => Some (Some id)
+  | FFound (EProc id) => Some (Some id)
   end.
 
-Fixpoint resolve_calls (tb : symtab) (calls : list chain) : list str :=
+Fixpoint resolve_calls (tb : symtab) (calls : list chain) : option (list str) :=
   match calls with
-  | [] => []
+  | [] => Some []
   | ch :: rest =>
-    match resolve_one tb ch with
-    | Some n => n :: resolve_calls tb rest
-    | None => resolve_calls tb rest
+    match resolve_one tb ch, resolve_calls tb rest with
+    | Some (Some n), Some l => Some (n :: l)
+    | Some None, Some l => Some l
+    | _, _ => None
     end
   end.
 
 (* names in unit.calls after correlate *)
 Definition recorded (tb : symtab) (stmts : list str) : option (list str) :=
   match unit_raw_calls stmts with
-  | Some c => Some (resolve_calls tb c)
+  | Some c => resolve_calls tb c
   | None => None
   end.
